@@ -25,7 +25,7 @@ ASSUMPTIONS = [
 ]
 
 NAMED = ["mean", "median", "min", "max", "std", "variance", "iqr", "range", "count", "sum", "meanabs", "absmean", "change", "abschange"]
-LEVELS = ["0", "0.1", "0.25", "0.5", "0.75", "0.9", "1"]
+LEVELS = ["0", "0.1", "0.25", "0.5", "0.75", "0.9", "1", "0.975", "0.025", "0.125", "0.333"]
 
 
 def array_strategy(tier):
